@@ -201,28 +201,23 @@ def replay_history(packcfg, nlabels, hist) -> Run:
     return r
 
 
-def _worker(arg) -> Acc:
-    packcfg, nlabels, depth, first = arg
-    packcfg = (packcfg[0], packcfg[1], tuple(packcfg[2]))
-    acc = Acc()
-    ops = alphabet(nlabels)
-    where = f"pack(inf={packcfg[0]},ini={packcfg[1]},exp={packcfg[2]})/labels={nlabels}"
-    seen = set()
-    start = [tuple(o) for o in first]
-    r0 = replay_history(packcfg, nlabels, start)
-    if r0.error:
-        acc.violation(r0.error[0], "DefaultQueue", where, f"history {start}: {r0.error[1]}",
-                      {"pack": [packcfg[0], packcfg[1], list(packcfg[2])], "labels": nlabels, "history": [list(o) for o in start]})
-        return acc
-    seen.add(hash(r0.state_key()))
-    frontier = [start]
-    level = len(start)
-    drained_states = 0
-    while frontier and level < depth:
-        nxt = []
-        for hist in frontier:
+class _Expander:
+    def __init__(self, packcfg, nlabels: int):
+        self.packcfg = packcfg
+        self.nlabels = nlabels
+
+    def __call__(self, hists):
+        packcfg, nlabels = self.packcfg, self.nlabels
+        acc = Acc()
+        ops = alphabet(nlabels)
+        where = f"pack(inf={packcfg[0]},ini={packcfg[1]},exp={packcfg[2]})/labels={nlabels}"
+        succ = []
+        local = set()
+        for hist in hists:
+            hist = [tuple(o) for o in hist]
+            started = any(o[0] == "dl_start" for o in hist)
             for op in ops:
-                if op[0] == "dl_next" and not any(o[0] == "dl_start" for o in hist):
+                if op[0] == "dl_next" and not started:
                     continue
                 h2 = hist + [op]
                 r = replay_history(packcfg, nlabels, h2)
@@ -231,21 +226,16 @@ def _worker(arg) -> Acc:
                     acc.violation(r.error[0], "DefaultQueue", where, f"history {h2}: {r.error[1]}",
                                   {"pack": [packcfg[0], packcfg[1], list(packcfg[2])], "labels": nlabels, "history": [list(o) for o in h2]})
                     continue
-                k = hash(r.state_key())
-                if k in seen:
+                k = hash((where, r.state_key()))
+                if k in local:
                     continue
-                seen.add(k)
+                local.add(k)
                 if r.mon.exhausted:
-                    acc.nt((where, k))
-                nxt.append(h2)
-        frontier = nxt
-        level += 1
-    acc.notes["state_hashes"] = {hash((where, s)) for s in seen}
-    if not frontier:
-        acc.count("closed_shards")
-    if frontier and first and first[0][0] == "add":
-        acc.sample({"pack": where, "history": [list(o) for o in frontier[len(frontier) // 3]]})
-    return acc
+                    acc.nt(k)
+                succ.append((k, h2))
+        if succ and len(succ[0][1]) % 3 == 0 and len(hists) > 5:
+            acc.sample({"pack": where, "history": [list(o) for o in succ[len(succ) // 2][1]]})
+        return acc, succ
 
 
 def self_test() -> None:
@@ -263,10 +253,10 @@ def run(ctx: Ctx) -> None:
     self_test()
     if ctx.quick:
         packs = [(0, 0, (1,)), (1, 1, (1,)), (1, 0, (1, 1)), (0, 1, (2, 1)), (2, 2, ()), (1, 1, (2, 1)), (0, 2, (1,))]
-        plans = [(p, 2, 8) for p in packs] + [((1, 1, (1,)), 3, 6)]
+        plans = [(p, 2, 9) for p in packs] + [((1, 1, (1,)), 3, 7)]
     else:
         packs = [(a, b, e) for a in (0, 1, 2) for b in (0, 1, 2) for e in ((), (1,), (1, 1), (2, 1))]
-        plans = [(p, 2, 10) for p in packs] + [(p, 3, 8) for p in [(1, 1, (1,)), (0, 1, (1, 1)), (1, 0, (2, 1)), (2, 2, ())]]
+        plans = [(p, 2, 11) for p in packs] + [(p, 3, 9) for p in [(1, 1, (1,)), (0, 1, (1, 1)), (1, 0, (2, 1)), (2, 2, ())]]
     ctx.rule = (
         "breadth-first search over histories of add/stop-yielding/verified/not-inferrable/next/do_level-start/do_level-next "
         "over 2 or 3 labels for the stated packs, deduplicated on (complete queue attributes, obligation monitor, do_level "
@@ -275,16 +265,16 @@ def run(ctx: Ctx) -> None:
     )
     ctx.assumptions = ["obligation monitor mc/checks/c16.py:Monitor (self-tested on a hand-written trace)"]
     ctx.bounds = {"plans": [{"pack": list(map(str, p)), "labels": n, "depth": d} for p, n, d in plans]}
-    shards = []
+    total = 0
+    closed = {}
     for p, n, d in plans:
-        for op in alphabet(n):
-            if op[0] == "dl_next":
-                continue
-            shards.append(((p[0], p[1], list(p[2])), n, d, [list(op)]))
-    ctx.pmap(_worker, shards)
-    hashes = ctx.acc.notes.pop("state_hashes", set())
-    ctx.acc.n["states"] = len(hashes)
+        r0 = replay_history(p, n, [])
+        where = f"pack(inf={p[0]},ini={p[1]},exp={p[2]})/labels={n}"
+        total += ctx.bfs([(hash((where, r0.state_key())), [])], _Expander(p, n), d, chunk=250)
+        closed[f"{where}/depth={d}"] = ctx.bfs_closed
+    ctx.acc.n["states"] = total
     ctx.acc.n["traces"] = ctx.acc.n.get("transitions", 0)
+    ctx.bounds["closed"] = closed
 
 
 def replay(acc: Acc, payload: dict) -> None:
